@@ -12,6 +12,7 @@ agreement of real code and executable spec on the unchanged tree is itself check
 `--selfcheck` (encoder cross-check, DESIGN 3.7).
 """
 import argparse
+import os
 import copy
 import itertools
 import json
@@ -217,6 +218,42 @@ def describe(g):
             'base': g.base}
 
 
+def det_child(repo, seed, n_grammars):
+    """child process of the DET mode: prints the pre-terminal sequences of tie-rich random rulesets as one JSON list"""
+    PcfgGrammar, pq = load(repo)
+    rng = random.Random(seed)
+    out = []
+    for gi in range(n_grammars):
+        g = mk_grammar(PcfgGrammar, rng, rng.randint(2, 3), tie_rich=True)
+        q = pq.PcfgQueue(g)
+        seq = []
+        while True:
+            it = q.next()
+            if it is None or len(seq) > 3000:
+                break
+            seq.append([it['prob'], it['base_prob'], [list(x) for x in it['pt']]])
+        out.append(seq)
+    print(json.dumps(out))
+
+
+def chk_det(repo, seed, tier):
+    """the emitted sequence is a function of the ruleset: the same rulesets in processes with different string-hash seeds"""
+    import subprocess
+    n = 12 if tier == 'quick' else 60
+    runs = []
+    for hs in ('1', '2', '77'):
+        env = dict(os.environ, PYTHONHASHSEED=hs)
+        p = subprocess.run([sys.executable, '-W', 'ignore', os.path.abspath(__file__), '--repo', repo, '--fn', 'DETCHILD', '--seed', str(seed), '--grammars', str(n)],
+                           capture_output=True, text=True, env=env, timeout=600)
+        runs.append(json.loads(p.stdout.strip().split('\n')[-1]))
+    for gi in range(n):
+        ok = runs[0][gi] == runs[1][gi] == runs[2][gi]
+        first = next((k for k in range(min(len(r[gi]) for r in runs)) if not (runs[0][gi][k] == runs[1][gi][k] == runs[2][gi][k])), None)
+        yield {'ruleset_number': gi, 'hash_seeds': [1, 2, 77]}, ok, {'first_difference_at_pop': first,
+                                                                     'seed1': runs[0][gi][first] if first is not None else None,
+                                                                     'seed2': runs[1][gi][first] if first is not None else None}
+
+
 def main():
     ap = argparse.ArgumentParser()
     ap.add_argument('--repo', default='/repo')
@@ -225,6 +262,22 @@ def main():
     ap.add_argument('--grammars', type=int, default=60)
     ap.add_argument('--tier', default='quick')
     a = ap.parse_args()
+    if a.fn == 'DETCHILD':
+        return det_child(a.repo, a.seed, a.grammars)
+    if a.fn == 'DET':
+        cases, fail = 0, None
+        try:
+            for inp, ok, extra in chk_det(a.repo, a.seed, a.tier):
+                cases += 1
+                if not ok:
+                    fail = dict({'function': 'DET', 'input': inp}, **extra)
+                    break
+        except Exception as ex:
+            import traceback
+            fail = {'function': 'DET', 'exception': repr(ex), 'traceback': traceback.format_exc()[-1200:]}
+        print(json.dumps({'failing_input': fail, 'failures': [fail] if fail else [], 'cases': cases, 'distinct': cases,
+                          'rule': 'tie-rich random rulesets, each run to exhaustion in three processes with PYTHONHASHSEED 1, 2 and 77', 'samples': []}, default=str))
+        return
     PcfgGrammar, pq = load(a.repo)
     rng = random.Random(a.seed)
     key = None
